@@ -23,14 +23,14 @@
 (***************************************************************************)
 EXTENDS Integers, Sequences, FiniteSets, Json, TLC
 
-CONSTANTS BoundSet,     \* candidate boundaries (integers, whole units)
+CONSTANTS BoundSet,     \* candidate boundaries (integers, HALF units: -3 is the boundary -1.5)
           MinDecl, MaxDecl,   \* length of a declaration
           MaxObs,       \* observations per histogram
           DEV_FirstBoundDroppedWhenNotPositive,  \* codegen: no bucket for buckets[0] unless buckets[0] > 0
           DEV_NaNInNoBucket,                     \* Observe: NaN <= Max is false for every bucket, +Inf included
           EmitCases
 
-VARIABLES decl,      \* the declared boundaries, strictly increasing (whole units)
+VARIABLES decl,      \* the declared boundaries, strictly increasing (half units)
           pc,        \* "declared" -> "ready"
           ranges,    \* m.Buckets: sequence of [min, max] (half units / specials)
           buckets,   \* d.Buckets: sequence of [max, n]
@@ -58,7 +58,7 @@ Add(x, y) == IF x = NaN \/ y = NaN THEN NaN
 RECURSIVE SumOf(_)
 SumOf(s) == IF s = <<>> THEN 0 ELSE Add(SumOf(SubSeq(s, 1, Len(s) - 1)), s[Len(s)])
 
-Half(b) == 2 * b     \* a whole-unit boundary in half units
+Half(b) == b         \* boundaries are declared in half units too (so that -1.5 and 0.5 can be boundaries)
 
 -----------------------------------------------------------------------------
 (* declarations *)
